@@ -93,16 +93,61 @@ class ShapeGen:
         return "%s[%s]" % (b.name, ", ".join(acc))
 
     # -------------------------------------------------------------- statements
-    def block(self, env, bufs, depth, ind, nstmts):
+    def block(self, env, bufs, depth, ind, nstmts, force_chain=False):
         rng = self.rng
         bufs = list(bufs)
         L = []
+        tail = []  # statements that must come last in this block (last use of a window chain)
         for _ in range(nstmts):
-            kinds = ["alloc"] * 3 + ["window"] * 4 + ["use"] * 4 + ["call"] * 3 + ["scalar"]
+            kinds = ["alloc"] * 3 + ["window"] * 4 + ["use"] * 4 + ["call"] * 3 + ["scalar"] + ["chain"] * 2
             if depth > 0:
                 kinds += ["if"] * 2 + ["for"] * 2
             k = rng.choice(kinds)
-            if k == "alloc":
+            if force_chain and _ == 0:
+                k = "chain"
+            if k == "chain":
+                # a heap allocation, a chain of 2 or 3 windows on it, and — as the LAST statement of this block — a use
+                # through the innermost window only (read / write / call); the buffer and the outer windows are not
+                # mentioned after the chain is built
+                t = self.fresh("t")
+                dims = rng.choice([[8], [8], [4, 8], [8, 4]])
+                L.append("%s%s: R[%s]" % (ind, t, ", ".join(map(str, dims))))
+                ivs, ind2 = [], ind
+                for q, d in enumerate(dims):
+                    iv = "z%d" % q
+                    L.append("%sfor %s in seq(0, %d):" % (ind2, iv, d))
+                    ind2 += "    "
+                    ivs.append(iv)
+                L.append("%s%s[%s] = %s" % (ind2, t, ", ".join(ivs), rng.choice(["0.0", "1.0", "2.0"])))
+                cur = Buf(t, dims, t, "alloc")
+                for level in range(rng.choice([2, 2, 3])):
+                    w = self.fresh("w")
+                    L.append("%s%s = %s" % (ind, w, self.window_of(cur, 4)))
+                    cur = Buf(w, [4], t, "win")
+                bufs.append(cur)
+                others = [b for b in bufs if b.dims and max(b.dims) >= 4 and b.root != t]
+                how = rng.choice(["read", "write", "call_src", "call_dst", "rd4"])
+                if how in ("call_src", "call_dst", "rd4") and self.leaf:
+                    how = "read"
+                if not others:
+                    how = "write_const"
+                if how == "read":
+                    d = rng.choice([b for b in others if b.writable] or others)
+                    final = ["%sfor i in seq(0, 4):" % ind, "%s    %s = %s[i]" % (ind, self.access(d, "i", env), cur.name)]
+                elif how == "write":
+                    final = ["%sfor i in seq(0, 4):" % ind, "%s    %s[i] = %s" % (ind, cur.name, self.access(rng.choice(others), "i", env))]
+                elif how == "write_const":
+                    final = ["%s%s[%d] = 3.0" % (ind, cur.name, rng.randrange(4))]
+                elif how == "call_src":
+                    d = rng.choice([b for b in others if b.writable] or others)
+                    final = ["%scp4%s(%s, %s[0:4])" % (ind, self.uid, self.window_of(d, 4), cur.name)]
+                elif how == "call_dst":
+                    final = ["%sacc4%s(%s, %s)" % (ind, self.uid, cur.name, self.window_of(rng.choice(others), 4))]
+                else:
+                    sc = self.fresh("s")
+                    final = ["%s%s: R" % (ind, sc), "%s%s = 0.0" % (ind, sc), "%srd4%s(%s, %s[0:4])" % (ind, self.uid, sc, cur.name)]
+                tail = final + tail
+            elif k == "alloc":
                 nm = self.fresh("t")
                 dims = rng.choice([[8], [8], [4], [4, 8], [8, 4]])
                 mem = ""
@@ -204,7 +249,7 @@ class ShapeGen:
                 it = rng.choice(["j", "jj"])
                 L.append("%sfor %s in seq(0, %s):" % (ind, it, hi))
                 L += self.block(env, bufs, depth - 1, ind + "    ", rng.randint(1, 3)) or [ind + "    pass"]
-        return L
+        return L + tail
 
     def module(self, name="foo"):
         rng = self.rng
@@ -226,7 +271,7 @@ class ShapeGen:
                                         ("v", "R[4]", [4])], rng.randint(2, 4)):
             sig.append("%s: %s" % (nm, ty))
             bufs.append(Buf(nm, dims, nm, "arg"))
-        body = self.block(env, bufs, 2, "    ", rng.randint(3, 7))
+        body = self.block(env, bufs, 2, "    ", rng.randint(3, 7), force_chain=rng.random() < 0.7)
         if not body:
             body = ["    pass"]
         parts.append("@proc\ndef %s(%s):\n%s%s\n" % (name, ", ".join(sig), "".join("    %s\n" % p for p in preds), "\n".join(body)))
